@@ -311,6 +311,46 @@ def main():
     if hist_bad:
         out["oracle_bad"].append({"oracle": "grad_named over a history of short-lived functions", "first": hist_bad[0],
                                   "n_wrong": len(hist_bad), "site": {"oracle": "argnum-algebra-history"}})
+    # ---- the argument-selection algebra against its model (Operators/Argnum.v, RunArg.v): util.subvals on integer tuples,
+    #      and what unary_to_nary hands to a unary operator (the point, and the arguments of fun at a displaced point) ----
+    from autograd.util import subvals as _subvals, subval as _subval
+    from autograd.wrap_util import unary_to_nary as _u2n
+
+    @_u2n
+    def _probe(fun, x, new):
+        return x, fun(new)
+    out["subcases"], out["argcases"] = [], []
+    for it in range(cfg.get("n_arg", 60)):
+        nargs = rng.randint(1, 6)
+        xs_ = tuple(rng.randint(-9, 9) for _ in range(nargs))
+        ivs = [(rng.randrange(nargs), rng.randint(-9, 9)) for _ in range(rng.randint(0, 4))]
+        try:
+            r_ = list(_subvals(xs_, ivs)) if it % 3 else (list(_subval(xs_, ivs[0][0], ivs[0][1])) if ivs else list(xs_))
+            if it % 3 == 0:
+                ivs = ivs[:1]
+            out["subcases"].append({"x": list(xs_), "ivs": [list(t) for t in ivs], "impl": [int(t) for t in r_]})
+        except Exception as ex:
+            out["oracle_bad"].append({"oracle": "util.subvals raised %r on %r %r" % (ex, xs_, ivs), "site": {"oracle": "argnum-model"}})
+        dist("subvals")
+        if it % 2 == 0:
+            an = rng.randrange(nargs)
+            new = rng.randint(-9, 9)
+            newl = [new]
+        else:
+            k_ = rng.randint(0, nargs)
+            an = rng.sample(range(nargs), k_)
+            newl = [rng.randint(-9, 9) for _ in an]
+            new = tuple(newl) if it % 4 == 1 else list(newl)
+            an = tuple(an) if it % 4 == 1 else list(an)
+        try:
+            point, call = _probe(lambda *a: a, an, new)(*xs_)
+            pt = [int(point)] if isinstance(an, int) else [int(t) for t in point]
+            ok_type = isinstance(an, int) or isinstance(point, tuple)
+            out["argcases"].append({"args": list(xs_), "an": an if isinstance(an, int) else list(an), "tuple": not isinstance(an, int), "new": newl,
+                                    "point": pt if ok_type else [], "call": [int(t) for t in call]})
+        except Exception as ex:
+            out["oracle_bad"].append({"oracle": "unary_to_nary raised %r for argnum %r" % (ex, an), "site": {"oracle": "argnum-model"}})
+        dist("argnum:" + ("int" if isinstance(an, int) else type(an).__name__))
     print(json.dumps(out))
 
 
